@@ -419,12 +419,67 @@ def transport_write_returns_count(ctx, R, cls, rule="RET-transport"):
         R.fail(rule, m.qualname + "|" + sub, "return value `%s` is not the byte count of the write" % src(v), m.loc(rn.ast))
 
 
+def _loop_always(ctx, f, n, call):
+    """Every normal path that leaves the function without entering the write loop is one on which the buffer is empty: the tests on such a
+    path are decided under `len(buffer) >= 1` with counters at their initial (constant or len(buffer)) values."""
+    import copy as _copy
+    from .c02 import len_cond_eval
+    g = ctx.cfg(f)
+    df = ctx.df(f)
+    head = n.loops[0]
+    buf = unawait(call.args[0]) if call.args else None
+    while isinstance(buf, ast.Subscript):
+        buf = buf.value
+    if isinstance(buf, ast.Name) and buf.id not in f.params:
+        d = df.unique_def(n, buf.id)
+        ds = list(df.reaching(n, buf.id))
+        roots = set()
+        for d in ds:
+            v = unawait(d.value) if d.value is not None else None
+            while isinstance(v, ast.Subscript):
+                v = v.value
+            if isinstance(v, ast.Name):
+                roots.add(v.id)
+        pr = [r for r in roots if r in f.params]
+        buf = ast.Name(id=pr[0], ctx=ast.Load()) if len(pr) == 1 else buf
+    if not isinstance(buf, ast.Name):
+        return g.dominates([head], g.exit, exc=False)
+    xkey = key(buf)
+
+    def subst(node, e):
+        e = _copy.deepcopy(e)
+
+        class S(ast.NodeTransformer):
+            def visit_Name(self, x):
+                if isinstance(x.ctx, ast.Load) and x.id != buf.id:
+                    d = df.unique_def(node, x.id)
+                    if d is not None and d.kind == "assign" and not d.path and d.value is not None:
+                        v = unawait(d.value)
+                        if isinstance(v, ast.Constant) and isinstance(v.value, int) and not isinstance(v.value, bool):
+                            return _copy.deepcopy(v)
+                        if isinstance(v, ast.Call) and isinstance(v.func, ast.Name) and v.func.id == "len" and len(v.args) == 1 and key(v.args[0]) == xkey:
+                            return _copy.deepcopy(v)
+                return x
+        return S().visit(e)
+
+    def feasible(s_, d_, l_):
+        if s_.kind == "test" and l_ in ("true", "false"):
+            r = len_cond_eval(subst(s_, s_.ast.test), xkey, 1, None)
+            if r is not None and r != (l_ == "true"):
+                return False
+        return True
+    return g.exit not in g.reach([g.entry], avoid=[head], exc=False, edge_filter=feasible, include_start=True)
+
+
 def write_sites_rules(ctx, R):
     """Every transport write site: the write-all shape, and no handler that swallows a failed write and goes on."""
     sites = transport_write_sites(ctx)
     for f, n, c in sites:
         ok, why, info = writeall_shape(ctx, f, n, c)
         R.check(ok, "RET", "%s|%s" % (f.qualname, norm_stmt(n.ast)), why, why, f.loc(n.ast))
+        if n.loops:
+            R.check(_loop_always(ctx, f, n, c), "RET", "%s|always|%s" % (f.qualname, norm_stmt(n.ast)), "a non-empty buffer always enters the write loop",
+                    "%s can return normally without entering its write loop although the buffer is not empty (an early return): the buffer is silently not written" % f.qualname, f.loc(n.ast))
         # a write whose exception is swallowed and retried can put bytes on the wire twice (or skip them): the call must raise
         from .c12 import handler_completes
         g = ctx.cfg(f)
